@@ -32,4 +32,9 @@ def civilLt (a b : Nat × Nat × Nat × Nat × Nat × Nat) : Prop :=
     (a.2.2.2.1 < b.2.2.2.1 ∨ a.2.2.2.1 = b.2.2.2.1 ∧ (a.2.2.2.2.1 < b.2.2.2.2.1 ∨ a.2.2.2.2.1 = b.2.2.2.2.1 ∧
       a.2.2.2.2.2 < b.2.2.2.2.2))))
 
+instance (d : Bytes) : Decidable (Num d) := by unfold Num; infer_instance
+instance (ts : Bytes) : Decidable (Ts ts) := by unfold Ts; infer_instance
+instance (rev : Bytes) : Decidable (Rev rev) := by unfold Rev; infer_instance
+instance (a b : Nat × Nat × Nat × Nat × Nat × Nat) : Decidable (civilLt a b) := by unfold civilLt; infer_instance
+
 end ModVerif.PseudoSpec
